@@ -797,6 +797,12 @@ func (Scenario) Run(c choice.Chooser, opt sim.Options) (res sim.Result) {
 			}
 			id := cands[c.Intn("prod:node", len(cands))]
 			name := fmt.Sprintf("file%d.txt", producerSerial)
+			if c.Intn("prod:oddname", 4) == 3 {
+				// valid but unusual file names
+				name = []string{"./report%d.txt", "out//b%d.txt", "out/../c%d.txt", "out%d/", "d %d.txt", "é%d.glb", "%d", "a%d.tar.gz", "out/deep/er/f%d.txt"}[c.Intn("prod:odd", 9)]
+				name = fmt.Sprintf(name, producerSerial)
+				res.Count("probe:unusual-producer-name", 1)
+			}
 			if names := w.inst.ProducerNames(); len(names) > 0 && c.Intn("prod:reuse", 4) == 3 {
 				sort.Strings(names)
 				name = names[c.Intn("prod:name", len(names))]
